@@ -64,7 +64,8 @@ def st_path(draw):
         st.sampled_from([
             "grammar", "grammar", "decoy-abs", "decoy-rel", "decoy-rel-noisy",
             "abs-inside", "root-relative-up", "decoy-rel-backslash",
-            "decoy-abs-backslash", "decoy-rel-mixed-sep"
+            "decoy-abs-backslash", "decoy-rel-mixed-sep",
+            "decoy-abs-doubleslash", "decoy-abs-tripleslash"
         ]))
     if kind == "grammar":
         comps = draw(st.lists(st_component(), min_size=1, max_size=8))
@@ -118,6 +119,12 @@ def concrete_path(spec, base_dir: str, root: str, decoy: str, tail: str,
     if kind == "root-relative-up":
         return "../" * spec["ups"] + os.path.basename(root) + "/" + \
             base_dir + "/" + tail
+    if kind == "decoy-abs-doubleslash":
+        # POSIX: exactly two leading slashes are an own (implementation
+        # defined) root; the kernel treats it like "/"
+        return "//" + os.path.join(decoy, tail).lstrip("/")
+    if kind == "decoy-abs-tripleslash":
+        return "///" + os.path.join(decoy, tail).lstrip("/")
     if kind == "decoy-abs-backslash":
         return os.path.join(decoy, tail).replace("/", "\\")
     ups = "../" * max(spec["ups"], 1)
@@ -361,6 +368,9 @@ def strategy_symlink(tier):
         "level": st.sampled_from(["split-dir", "sub-dir", "list-file"]),
         "n": st.integers(1, 5),
         "outside_has_shards": st.booleans(),
+        # the outside directory's name extends the root's name (ds -> ds_old):
+        # string-prefix containment tests are fooled by that
+        "prefix_sibling": st.booleans(),
     })
 
 
@@ -375,7 +385,8 @@ def run_symlink(case, ctx):
     sandbox = env.scratch_dir("c17s")
     try:
         root = sandbox / "outer" / "ds"
-        outside = sandbox / "outer" / "elsewhere"
+        outside = sandbox / "outer" / ("ds_old" if case.get("prefix_sibling")
+                                       else "elsewhere")
         outside.mkdir(parents=True)
         ds = dsops.create_dataset(root, desc)
         dsops.filler_session(ds, desc, [["test", [0, 1, 2], None]])
@@ -435,7 +446,8 @@ def run_symlink(case, ctx):
                 f"({'raised ' + repr(err) if err else 'no error'})")
         ctx.label("symlink:" + level, "raised" if err else "accepted")
         ctx.nontrivial(["symlink", level, fmt, case["n"],
-                        case["outside_has_shards"]])
+                        case["outside_has_shards"],
+                        bool(case.get("prefix_sibling"))])
     finally:
         dsops.rmtree(sandbox)
 
